@@ -973,7 +973,10 @@ class Request(BaseRequest):
 
     async def _prepare_hook(self, response: StreamResponse) -> None:
         match_info = self._match_info
-        assert match_info is not None
+        if match_info is None:
+            # The router failed to resolve the request, the error response
+            # is not bound to any application.
+            return
         for app in match_info._apps:
             if on_response_prepare := app.on_response_prepare:
                 await on_response_prepare.send(self, response)
